@@ -59,7 +59,7 @@ def rt_job(sh, mode, tier, prefix):
                             'nvm_deserialize': [7, len(sh['slens']) + 2, sh['nfunc'] + 2, sh['ndbg'] + 2, len(sh['ipcs']) + 2]},
             src_remove_bodies=([] if real_crc else ['nvm_crc32']),
             flags=['--max-field-sensitivity-array-size', '256'],
-            timeout=600 if tier == 'thorough' else 240, group='nvm_' + MODES[mode], must_witness=['done'],
+            timeout=1200, group='nvm_' + MODES[mode], must_witness=['done'],
             desc={'shape': sh, 'mode': MODES[mode], 'file_bytes_max': fm,
                   'symbolic': 'all string bytes, code bytes, function/debug/import fields, flags, entry point'
                               + ({1: ', truncation length', 2: ', tail length 1..4 and tail bytes', 3: ', damaged header byte and xor mask'}.get(mode, '')),
@@ -126,7 +126,7 @@ def loader_job(size, secs, tier, prefix, free_header=False):
     return Job(name=nm, harness='nvm_loader.c', sources=['src/nanoisa/nvm_format.c'], defines=d, unwind=size + 3,
                src_remove_bodies=['nvm_crc32'], unwind_by_func=ubf, unwindset=['memcmp.0:%d' % (maxbody + 2)],
                flags=(['--max-field-sensitivity-array-size', '128'] if size > 64 else []),
-               timeout=900 if tier == 'thorough' else 240, group='nvm_loader',
+               timeout=1200, group='nvm_loader',
                desc={'file_size': size, 'sections': parts,
                      'symbolic': 'flags, entry, pool offset/length, stored checksum, every body byte; directory offset/size where marked @sym',
                      'crc': 'uninterpreted (any value): includes well-checksummed hostile files'})
